@@ -12,6 +12,7 @@ import ast
 
 from ..core import rule, AnalysisError
 from ..engine import emit, cfg as cfgmod, flow
+from ..engine import pattern as P
 from ..engine.facts import dotted, const, src, walk_func, enclosing_stmt, ancestors, str_value
 from . import skeletons as sk
 from .common import calls, stmt_nodes, contains, norm_successors
@@ -76,8 +77,7 @@ def line_accounting(ctx):
     ul = ms["_update_lineno"]
     ctx.check(any(isinstance(n, ast.AugAssign) and dotted(n.target) == "self.lineno" and isinstance(n.op, ast.Add) and src(n.value) == ul.args.args[1].arg for n in walk_func(ul)), "update.adds", db.where(ul), "_update_lineno does not add its argument to self.lineno", "lineno += num")
     st = ms["start_source"]
-    t = src(st)
-    ctx.check("self.source_map[self.lineno] = lineno" in t and "self.lineno not in self.source_map" in t, "start_source", db.where(st), "start_source does not map the current module line to the template line (first writer wins)", "source_map[current line] = template line, first writer wins")
+    ctx.check(P.has(st, "if self.lineno not in self.source_map:\n    self.source_map[self.lineno] = $l"), "start_source", db.where(st), "start_source does not map the current module line to the template line (first writer wins)", "source_map[current line] = template line, first writer wins")
     init = ms["__init__"]
     a = [n for n in walk_func(init) if isinstance(n, ast.Assign) and dotted(n.targets[0]) == "self.lineno"]
     ctx.check(bool(a) and const(a[0].value) == 1, "lineno-base", db.where(init), "module line numbering does not start at 1", "self.lineno = 1")
@@ -210,7 +210,7 @@ def metadata(ctx):
     r0 = rng[0]
     base = const(r0.args[0]) if len(r0.args) >= 2 else 0
     ctx.check(len(r0.args) == 2 and src(r0.args[1]) == "max(line_map)", "reader.range", db.where(r0), "full_line_map covers %s" % src(r0), "module lines %s .. max(line_map)-1" % base)
-    carry = "curr_templ_line = line_map[mod_line]" in src(rd) and "f_line_map.append(curr_templ_line)" in src(rd)
+    carry = P.has(rd, "for $m in range($_, $_):\n    if $m in $lm:\n        $c = $lm[$m]\n    $f.append($c)")
     ctx.check(carry, "reader.carry-forward", db.where(rd), "lines without an entry do not carry the previous template line forward", "carry forward")
     readers = []
     for q in ("exceptions.RichTraceback._init", "template._translate_module_warnings._locate"):
@@ -278,8 +278,8 @@ def warning_regions(ctx):
     ctx.check(bool(pc) and any(src(a) == "EXPRESSION_FILENAME" for a in pc[0].args), "expr-filename.parser", db.where(pp), "pyparser.parse does not compile under EXPRESSION_FILENAME", "parses under EXPRESSION_FILENAME")
     au = db.func("_ast_util.parse")
     t = src(au)
-    ctx.check("compile(expr, filename, mode, PyCF_ONLY_AST)" in t.replace("\n", " "), "expr-filename.passed", db.where(au), "_ast_util.parse does not pass the filename to compile()", "filename passed to compile()")
+    ctx.check(P.has(au, "compile($e, filename, $m, PyCF_ONLY_AST)"), "expr-filename.passed", db.where(au), "_ast_util.parse does not pass the filename to compile()", "filename passed to compile()")
     tl = db.func("template._translate_module_warnings._locate")
-    ctx.check("warning_filename != module_id" in src(tl) and "return (warning_filename, lineno)" in src(tl), "translate.passthrough", db.where(tl), "warnings of other files are not passed through unchanged", "other files unchanged")
+    ctx.check(P.has(tl, "if $w != module_id:\n    return ($w, $l)"), "translate.passthrough", db.where(tl), "warnings of other files are not passed through unchanged", "other files unchanged")
     sw = db.func("template._show_warnings_as._show")
-    ctx.check("if location is None" in src(sw) and "return" in src(sw) and "show_warning(message, category, filename, lineno, file, line)" in src(sw), "show.once", db.where(sw), "the hook does not show each warning exactly once through the original hook", "dropped or forwarded exactly once")
+    ctx.check(P.has(sw, "$loc = locate($_, $_, $_, $_)\nif $loc is None:\n    return") and P.count(sw, "show_warning($_, $_, $_, $_, $_, $_)") == 1, "show.once", db.where(sw), "the hook does not show each warning exactly once through the original hook", "dropped or forwarded exactly once")
